@@ -22,7 +22,8 @@ def x_obligations(tier):
             o.append(Obl(f"C03-{fn}[query-built,{pre!r}+{n}+{suf!r}]", M, fn, env={"VF_PRE": pre, "VF_N": str(n), "VF_SUF": suf}, timeout=170 if tier == "quick" else 600,
                          family="C03-" + fn, bound=f"Sid({pre!r} + t + {suf!r}), every t with len(t) <= {n} without '?' and ':'"))
     # the shipped configuration, skeletons with one symbolic character
-    ship = [("hamlet/a/char/", 1, ""), ("hamlet/s/sq01", 1, "/sh0010"), ("hamlet/a/char/x/model/v00", 1, "/w/ma"), ("hamlet/", 1, "")]
+    ship = [("hamlet/a/char/", 1, ""), ("hamlet/s/sq01", 1, "/sh0010"), ("hamlet/a/char/x/model/v00", 1, "/w/ma"), ("hamlet/", 1, ""),
+            ("hamlet/s/sq010/sh0010/anim/v001/w/m", 1, "")]      # a shot file WITHOUT the optional 'node' level: its keys skip one of the configured key order
     for pre, n, suf in ship:
         for fn in ("parent", "walk"):
             o.append(Obl(f"C03-{fn}[shipped,{pre!r}+{n}+{suf!r}]", M, fn, env={"VF_CONF": "shipped", "VF_PRE": pre, "VF_N": str(n), "VF_SUF": suf}, timeout=170 if tier == "quick" else 600, path_timeout=200,
